@@ -12,8 +12,8 @@ Section Range.
     {| ty := TDuration; text := txt; v_float := None; v_int := None; v_dur := Some ns; v_bytes := None; v_re := None; v_re_anch := false |}.
 
   Definition print_range (rtxt : bytes) (rns : Z) (off : option (bytes * Z)) : list token :=
-    plain TOpenBracket [] :: dur_tok rtxt rns :: plain TCloseBracket [] ::
-    match off with Some (otxt, ons) => [plain TOffset []; dur_tok otxt ons] | None => [] end.
+    punct TOpenBracket :: dur_tok rtxt rns :: punct TCloseBracket ::
+    match off with Some (otxt, ons) => [punct TOffset; dur_tok otxt ons] | None => [] end.
 
   Definition print_logrange (cls : bytes -> ttype) (sel : list matcher) (sts : list stage) (rtxt : bytes) (rns : Z) (off : option (bytes * Z)) : list token :=
     print_selector anch re_names cls sel ++ print_stages anch re_names sts ++ print_range rtxt rns off.
@@ -48,9 +48,9 @@ Section Range.
     destruct sts as [|s t].
     - (* no pipeline before the range: [range] first, then an (empty) pipeline *)
       cbn [print_stages flat_map app]. unfold bind at 1, peek at 1. cbn [rest print_range app].
-      change (is_ty (plain TOpenBracket []) TOpenBracket) with true. cbn iota.
+      change (is_ty (punct TOpenBracket) TOpenBracket) with true. cbn iota.
       unfold bind at 1.
-      change (plain TOpenBracket [] :: dur_tok rtxt rns :: plain TCloseBracket [] :: match off with Some (otxt, ons) => [plain TOffset []; dur_tok otxt ons] | None => [] end ++ r)
+      change (punct TOpenBracket :: dur_tok rtxt rns :: punct TCloseBracket :: match off with Some (otxt, ons) => [punct TOffset; dur_tok otxt ons] | None => [] end ++ r)
         with (print_range rtxt rns off ++ r).
       rewrite (range_offset_print rtxt rns off _ r Hoff).
       destruct (Hclose eq_refl) as [Hend [_ Hunw]].
@@ -78,8 +78,8 @@ Section Range.
       unfold bind at 1, parse_pipeline_unwrap. unfold bind at 1.
       rewrite (pipeline_print_lemma anch re_names sts fuel true [] _ _ Hchain Hf2). cbn [app].
       unfold bind at 1, peek at 1. cbn [rest print_range app].
-      change (is_ty (plain TOpenBracket []) TUnwrap) with false. cbn iota. cbn [ret bind].
-      change (plain TOpenBracket [] :: dur_tok rtxt rns :: plain TCloseBracket [] :: match off with Some (otxt, ons) => [plain TOffset []; dur_tok otxt ons] | None => [] end ++ r)
+      change (is_ty (punct TOpenBracket) TUnwrap) with false. cbn iota. cbn [ret bind].
+      change (punct TOpenBracket :: dur_tok rtxt rns :: punct TCloseBracket :: match off with Some (otxt, ons) => [punct TOffset; dur_tok otxt ons] | None => [] end ++ r)
         with (print_range rtxt rns off ++ r).
       unfold bind at 1. rewrite (range_offset_print rtxt rns off _ r Hoff).
       unfold ret. cbn [fst snd]. f_equal. f_equal. unfold print_logrange. rewrite ?rev_app_distr, <- ?app_assoc. reflexivity.
